@@ -204,10 +204,10 @@ func cmdCheck(args []string) int {
 	// lemmas tagged with the property
 	for _, l := range p.lemmas {
 		if hasProp(l.Props, id) {
-			if o, err := lemmaObligation(p, sr, l); err != nil {
+			if os, err := lemmaObligations(p, sr, l); err != nil {
 				contractErrs = append(contractErrs, "lemma "+l.Name+": "+err.Error())
 			} else {
-				all = append(all, o)
+				all = append(all, os...)
 			}
 		}
 	}
@@ -396,6 +396,13 @@ func cmdCheck(args []string) int {
 		"heap type invariant: values read from memory are well-formed for their Go type",
 	}
 	for _, a := range p.axioms {
+		if a.Induct != "" {
+			if hasProp(a.Props, id) {
+				continue // proved in this very check (lemma.<name>.base/.step/.neg)
+			}
+			assumptions = append(assumptions, "lemma "+a.Name+" (proved by induction under the checks of "+strings.Join(a.Props, " ")+"): "+a.Text)
+			continue
+		}
 		assumptions = append(assumptions, "axiom "+a.Name+": "+a.Text)
 	}
 	sort.Strings(notes)
